@@ -30,6 +30,52 @@ CLAIMS = {
     ),
 }
 
+CLAIMS["C19"] = (
+    "Arc-length parametrisation of a curve given as an ARBITRARY valid (path, lengths) pair built through a "
+    "forwarding hook: for every f64 progress (NaN, +-inf, -0.0, subnormals included) outside (0,1) the distance is "
+    "exactly 0 / the total distance; idx_of_dist brackets every f64 distance; position_at(p <= 0) is the first vertex "
+    "(value-exact) and (0,0) for the empty curve. The float-heavy clauses (position at progress >= 1 is the last "
+    "vertex; at each vertex's cumulative length the position is that vertex) are decided at reduced width in the "
+    "quick tier (integer coordinates in [-128,127], lengths multiples of 1/2: exact equality) and at full f32/f64 "
+    "width with kissat in the thorough tier (tolerance 4*2^-23*max|coord|, i.e. the rounding of the code's own lerp).",
+    "Bound: <= 4 vertices (quick), <= 6 for idx_of_dist, <= 3 full-width float clauses (thorough); |coord| <= 2^18; "
+    "curve invariant assumed: lengths[0]=0, non-decreasing, finite, a segment is longer than f64::EPSILON or has "
+    "identical end points. Outside: the Lipschitz clause (position never moves farther than the arc length) and any "
+    "statement about points strictly between vertices -- products of two symbolic floats under a tolerance did not "
+    "finish (DESIGN.md §5 C19). Trusted: Kani/CBMC float model, hook curve_from_raw (constructor only).",
+    "DESIGN.md §5 C19",
+    TECH + "; one clause per harness on an arbitrary valid curve state",
+)
+CLAIMS["C16"] = (
+    "calculate_length is run (forwarding hook) on an ARBITRARY polyline with an arbitrary requested length and its "
+    "output must have one of the shapes the statement allows, the shape being determined by the inputs: natural "
+    "lengths kept only without a request / when already equal up to f64::EPSILON / single point; the osu-stable "
+    "exception only with identical last two points and a longer request; otherwise the total distance is bit-for-bit "
+    "the requested length, every kept length is below it, the kept prefix of the path is untouched; cumulative "
+    "lengths start at +0, never decrease and stay finite.",
+    "Bound: 1-2 vertices at full width (all f32 with |coord| <= 2^18, every finite f64 request), 3 vertices on the "
+    "integer grid [-128,127]^2 in the quick tier; 3 vertices full width and 4 on the grid in the thorough tier. "
+    "Outside: that the NATURAL cumulative lengths equal the true segment lengths and that the moved end point lies "
+    "on the cut segment / its extension (need sqrt/normalise equivalence under tolerance: did not finish); Catmull "
+    "simplification clause; paths > 4 vertices; end-to-end Curve::new (out of memory at 24 GB).",
+    "DESIGN.md §5 C16",
+    TECH + "; output-shape specification decided over all inputs of one kernel call",
+)
+CLAIMS["C18"] = (
+    "Inductive form of 'whatever was computed with those buffers before': the shared CurveBuffers start with ARBITRARY "
+    "stale content (symbolic points, lengths and vertices, concrete counts 0-4) and one computation through the public "
+    "API (Curve::new / BorrowedCurve::new, every mode, every requested length) must yield what fresh buffers yield: "
+    "the empty curve for the empty list, exactly the point for a single point; for 2-3 Linear points the two kernels "
+    "(calculate_path, calculate_length) are decided separately through forwarding hooks. SliderPath: the cached curve "
+    "is what borrowed_curve hands out, and control_points_mut() invalidates it (clear / move a point, then recompute).",
+    "Bound: list shapes {empty, single, 2-3 Linear points}; stale content sizes <= 4. Outside: Bezier/Catmull/arc "
+    "segments and BezierBuffers reuse; Curve::new end-to-end on >= 2 symbolic points and expected_dist_mut() "
+    "invalidation on a 2-point path (out of memory at 16-24 GB). The check found defect D6 (stale path for the empty "
+    "list), repaired by fix commit b58fcf3.",
+    "DESIGN.md §5 C18",
+    TECH + "; arbitrary-stale-state one-step harnesses instead of call histories",
+)
+
 NOT_APPLICABLE = {
     "C02": "whole-map text round trip needs Display/FromStr of floats and hundreds of map-shaped symbolic text bytes; Beatmap::encode alone exhausts 28 GB inside core::fmt under CBMC (DESIGN.md §5 C02, §7)",
     "C04": "oracle is the parser applied to encoder output (map-shaped text with printed floats); even the path-serialisation clause needs >= 12 symbolic text bytes through nested splits, beyond the measured budget (DESIGN.md §5 C04, §7)",
